@@ -67,6 +67,11 @@ def make_data(lay) -> np.ndarray:
         lo = {1: 0, 2: 1, 4: 5, 8: 64}[nbits]
         hi = {1: 1, 2: 2, 4: 10, 8: 191}[nbits]
         return rng.integers(lo, hi + 1, size=(n, nchans)).astype(np.uint8)
+    if kind == "small":
+        # values 0..7 (or the depth's range): per-channel float32 sums stay exact (< 2^24) over millions of samples
+        hi = min(8, 1 << min(nbits, 8))
+        dt = np.float32 if nbits == 32 else (np.uint16 if nbits == 16 else np.uint8)
+        return rng.integers(0, hi, size=(n, nchans)).astype(dt)
     if nbits == 32:
         if kind == "f32any":
             # arbitrary finite float32 bit patterns (incl. subnormals, +-0, huge)
@@ -182,3 +187,11 @@ def apply_prior_use(rd, ops):
             if op["kind"] == "abandon_plan" and i + 1 >= op["blocks"]:
                 break
     return rd
+
+
+def as_np_ints(kw, on):
+    """The same keyword arguments with their integers held as numpy int64 scalars (as they are when a caller
+    computes gulp/start/nsamps with numpy) - the library accepts them and must treat them as the plain ints."""
+    if not on:
+        return kw
+    return {k: (np.int64(v) if isinstance(v, int) and not isinstance(v, bool) else v) for k, v in kw.items()}
